@@ -47,9 +47,24 @@ class Sizes:
         a = self.f.adts.get(name)
         if a and isinstance(a.get('size'), int) and a['size'] > 0:
             return a['size']
+        if name.isidentifier() and name[:1].isupper() and len(name) <= 2 and a is None:
+            # a generic parameter of a state (`S: Shape + ..`): one of the workspace's shape types (what the library and the CLI
+            # can build); the smallest of them bounds the length of a Vec<S>
+            return self._min_shape_size()
         if name in ('std::vec::Vec', 'std::string::String'):
             return 24
         return 1
+
+    def _min_shape_size(self):
+        if not hasattr(self, '_mss'):
+            sizes = []
+            for b in self.f.bodies.values():
+                if (b.impl_trait or '').endswith('traits::Shape') and b.impl_self_adt:
+                    a = self.f.adts.get(self.f.norm(b.impl_self_adt))
+                    if a and isinstance(a.get('size'), int) and a['size'] > 0:
+                        sizes.append(a['size'])
+            self._mss = min(sizes) if sizes else 1
+        return self._mss
 
     @staticmethod
     def elem_ty(coll_ty):
@@ -125,6 +140,15 @@ class Sizes:
                 if _plain(a) and _plain(b):
                     pick = min if (callee_name(t) or '').endswith('min') else max
                     return (pick(a[0], b[0]), pick(a[1], b[1]))
+                return None
+            fn = callee_name(t) or ''
+            if fn.endswith('::pow') and 'core::num::' in fn and len(t['args']) == 2 and t['dest'].get('ty') in RANGES:
+                a = self.interval(body, t['args'][0], stack, depth + 1)
+                k = self.interval(body, t['args'][1], stack, depth + 1)
+                if _plain(a) and _plain(k) and k[0] == k[1] and 0 <= k[0] <= 64:
+                    e = k[0]
+                    c = [a[0] ** e, a[1] ** e] + ([0] if a[0] < 0 < a[1] and e > 0 else [])
+                    return (min(c), max(c))
                 return None
             cb = self.f.body_of_fnconst(t['func'])
             if cb is not None and not cb.is_closure and cb.local_ty(0) in RANGES:
